@@ -405,6 +405,18 @@ func c15Seeds() [][]byte {
 		b, _ := refdec.EncodeAll(p)
 		out = append(out, b)
 	}
+	// integers longer than four bytes whose surplus leading bytes are zero (the value fits)
+	for _, l := range []int{5, 6, 8, 9, 255} {
+		for _, head := range [][]byte{{0, 3, 1, 'a'}, {0, 2}, {0, 1, 1, 'a'}} {
+			b := append(append([]byte{}, head...), byte(l))
+			b = append(b, make([]byte, l-1)...)
+			b = append(b, 7)
+			if head[1] != 3 {
+				b = append(b, 1) // matchmode of CROAK / CATCH
+			}
+			out = append(out, b, append(append([]byte{}, b...), 0, 7))
+		}
+	}
 	// hostile length bytes
 	out = append(out, []byte{0, 3, 3, 'f', 'o'}, []byte{0, 3, 3, 'f', 'o', 'o'}, []byte{0, 3, 3, 'f', 'o', 'o', 5, 1, 2, 3, 4, 5},
 		[]byte{0, 2, 0xff}, []byte{0, 8, 1, 'a'}, []byte{0, 1, 0xff, 'a'}, []byte{0, 13}, []byte{0, 2, 4, 1, 2, 3})
